@@ -23,15 +23,16 @@ rows.sort(key=lambda r: (r[0].split("-")[0], int(r[0].split("-")[1])))
 out = ["### 11.6 Seeded changes and which check reports them\n",
        "%d changes were written by fresh sub-agents that saw only one property's text and a scratch git worktree of `/repo` (never `/verif`): round 1" % len(rows),
        "(`-1..-3`, three per claimed property, made on the pinned commit), round 2 (`-4..-6`, on the tree with the `fix:` commits, asked for *different*",
-       "mechanisms) and round 3 (`-7..-9`, asked to look further afield: helper modules, constants, constructors, interfering API calls, the other side of an",
-       "interface, boundary values, special configurations).  Each compiles, passes the unedited",
+       "mechanisms), round 3 (`-7..-9`, asked to look further afield: helper modules, constants, constructors, interfering API calls, the other side of an",
+       "interface, boundary values, special configurations) and round 4 (`-10..-12`, ten properties whose rules had been rewritten for robustness; the agents",
+       "were asked to express the breaking change idiomatically - helpers, closures, combinators, `?`, let-else, slice patterns, renamed locals).  Each compiles, passes the unedited",
        "suite and comes with a demonstration test that passes on HEAD and fails with the change; I re-ran all three steps for every seed with",
        "`tools/verify_seed.sh` in a scratch worktree (result line in `seeded/<id>/verified.txt`, commands in `meta.json:what_i_ran`).  None of them is committed in",
        "`/repo`.  `seeded/RESULTS.txt` / `seeded/INDEX.md` are produced by running `tools/variant.sh` over all seeds with the final rules.\n",
        "Result with the final rules: **%d of %d reported** by the check of their own property.  Silent: C14-2, which fix F11 made harmless (its own" % (nrep, len(rows)),
-       "demonstration passes on the fixed tree: `NEUTRALISED`), and C20-9 (`update_prm_data_len` grows the block only when the field *starts* beyond its end, so a",
-       "field straddling the end panics): deciding it needs an inductive invariant over a `Vec` length across the push loop of the unchanged code, which the",
-       "interval/zone domain does not provide - recorded as not decided rather than covered by a shape rule.  %d round-1 seeds no longer apply to the fixed tree and" % nreb,
+       "demonstration passes on the fixed tree: `NEUTRALISED`).  (C20-9 - `update_prm_data_len` grows the block only when the field *starts* beyond its end - was not",
+       "decided until clause C20.d was added: every return path of the sizing helper is already large enough, or passed `resize(offset + size)`, or left the",
+       "`0..(offset + size) - len` push loop.)  %d round-1 seeds no longer apply to the fixed tree and" % nreb,
        "are run from `patch_rebased.diff` (the same semantic change re-written against the fixed code).\n",
        "What the seeds taught — each of these was a miss (or a hit for a brittle reason) at first, and the *rule*, never the seed, was changed; every new clause was",
        "then run on the unchanged tree, on the six extra feature configurations and on hand-made behaviour-preserving edits (operand swaps, `is_stop()` ↔ `== Stop`,",
@@ -61,6 +62,12 @@ out = ["### 11.6 Seeded changes and which check reports them\n",
        "  `fill` ignoring an empty block list → numeric post-condition (recorded, or no buffer, or too small); C18-7 GAP wrap after HSA → C18 imports C12.a; C19-7 literal",
        "  `\\n` in the grammar → NEWLINE only; C19-8 two speed flags sharing a bit → distinct single bits; C19-9 signed numbers parsed through `u32` → no signed",
        "  instantiation of `parse_number`.",
+       "* round 4 (6 of 30 missed at first): C01-11 `pending_bytes` stored before it is compared (the comparison reads itself) → no store between the PHY query and the",
+       "  comparison; C01-12 field-wise offline reset forgetting `last_bus_activity` → going offline re-creates the station or clears the activity marker and the byte",
+       "  count; C09-10 `assert!(pdu_len <= 244)` in the serializer → the only refusal allowed is `LE > 249`; C12-11 `DoGap` passed in a variable that can be `Yes`",
+       "  after a GAP reply → the variant is read per path class; C15-12 hold-time deadline computed from the token just received → C15 imports C13 `c.deadline`; C18-12",
+       "  scanner decoding the ident number little-endian → C18 imports C17 `d.header`.  Also from this round's hits for a weak reason: the FCS fold is recognised",
+       "  strictly (start 0, every byte, `wrapping_add`), and the writer must store exactly that sum.",
        "* an observation outside a property's scope: the RP2040 PHY (feature `phy-rp2040`) drops the whole receive buffer on a partial drop (acknowledged TODO in its",
        "  source); C16 quantifies over the generic helpers on the simulator/harness PHYs, so this is recorded under `not_decided` in the thorough evidence, not reported.\n",
        "| seed | mechanism | change | applied as | check | first reporting clause |", "|---|---|---|---|---|---|"]
